@@ -66,6 +66,10 @@ pub struct Traced {
     pub main_id: u64,
     /// host calls seen: (function number, rendering of what the host popped), in service order
     pub host_calls: Vec<(u16, String)>,
+    /// further `run_n_steps` calls made after completion / failure was reported, nothing serviced in between
+    pub after_calls: Vec<CallRecord>,
+    /// the call bound was hit before the runtime reported completion or failure
+    pub call_bound_hit: bool,
 }
 
 pub fn sanitize(s: &str) -> String {
@@ -146,11 +150,47 @@ pub fn run_traced(src: &str, sched: &Schedule, max_steps: u64, host: HostFn) -> 
             calls: vec![],
             main_id: 0,
             host_calls: vec![],
+            after_calls: vec![],
+            call_bound_hit: false,
         },
     }
 }
 
 pub fn run_traced_rt(mk: &MkRuntime, sched: &Schedule, max_steps: u64, host: HostFn) -> Traced {
+    run_traced_after(mk, sched, max_steps, host, &[], 4_000_000)
+}
+
+fn call_record(rt: &mut Runtime, call: Call, status: &abra_core::vm::RuntimeStatus, events: Vec<Event>) -> (CallRecord, Option<Outcome>, String) {
+    let mut err_text = String::new();
+    let (st, fin) = match &status.kind {
+        RuntimeStatusKind::Done => ("done".to_string(), Some(Outcome::Done)),
+        RuntimeStatusKind::MainThreadError(e) => {
+            let text = e.to_string();
+            let k = error_kind(&text);
+            err_text = text;
+            (format!("err:{}", sanitize(&k)), Some(Outcome::Error(k)))
+        }
+        RuntimeStatusKind::OutOfSteps => ("out".to_string(), None),
+        RuntimeStatusKind::PendingHostFunc => ("pending".to_string(), None),
+    };
+    let queue: Vec<(u64, String)> = rt
+        .iter_threads_mut()
+        .map(|th| {
+            let f = match th.status() {
+                VmStatus::Done => "d".to_string(),
+                VmStatus::PendingHostFunc(n) => format!("p{n}"),
+                VmStatus::OutOfSteps => String::new(),
+                VmStatus::Error(_) => "e".to_string(),
+            };
+            (th.id(), f)
+        })
+        .collect();
+    (CallRecord { call, events, status: st, steps: status.steps_consumed, queue }, fin, err_text)
+}
+
+/// like `run_traced_rt`, with a bound on the number of calls and, once completion or failure has been
+/// reported, the further calls `after` (budgets) made without servicing anything
+pub fn run_traced_after(mk: &MkRuntime, sched: &Schedule, max_steps: u64, host: HostFn, after: &[u32], max_calls: usize) -> Traced {
     let mut t = Traced {
         outcome: Outcome::Timeout,
         out: String::new(),
@@ -160,6 +200,8 @@ pub fn run_traced_rt(mk: &MkRuntime, sched: &Schedule, max_steps: u64, host: Hos
         calls: vec![],
         main_id: 0,
         host_calls: vec![],
+        after_calls: vec![],
+        call_bound_hit: false,
     };
     let mut rt = mk();
     t.main_id = rt.main().id();
@@ -172,30 +214,11 @@ pub fn run_traced_rt(mk: &MkRuntime, sched: &Schedule, max_steps: u64, host: Hos
             let status = rt.run_n_steps(call.budget);
             let events = verif_sched::take();
             t.total_steps += status.steps_consumed as u64;
-            let (st, fin) = match &status.kind {
-                RuntimeStatusKind::Done => ("done".to_string(), Some(Outcome::Done)),
-                RuntimeStatusKind::MainThreadError(e) => {
-                    let text = e.to_string();
-                    let k = error_kind(&text);
-                    t.err_text = text;
-                    (format!("err:{}", sanitize(&k)), Some(Outcome::Error(k)))
-                }
-                RuntimeStatusKind::OutOfSteps => ("out".to_string(), None),
-                RuntimeStatusKind::PendingHostFunc => ("pending".to_string(), None),
-            };
-            let queue: Vec<(u64, String)> = rt
-                .iter_threads_mut()
-                .map(|th| {
-                    let f = match th.status() {
-                        VmStatus::Done => "d".to_string(),
-                        VmStatus::PendingHostFunc(n) => format!("p{n}"),
-                        VmStatus::OutOfSteps => String::new(),
-                        VmStatus::Error(_) => "e".to_string(),
-                    };
-                    (th.id(), f)
-                })
-                .collect();
-            t.calls.push(CallRecord { call, events, status: st, steps: status.steps_consumed, queue });
+            let (rec, fin, err_text) = call_record(&mut rt, call, &status, events);
+            if !err_text.is_empty() {
+                t.err_text = err_text;
+            }
+            t.calls.push(rec);
             if let Some(o) = fin {
                 if o == Outcome::Done {
                     t.value = render_top(&rt);
@@ -204,6 +227,13 @@ pub fn run_traced_rt(mk: &MkRuntime, sched: &Schedule, max_steps: u64, host: Hos
                     }
                 }
                 t.outcome = o;
+                for &b in after {
+                    let call = Call { budget: b, service: false };
+                    let status = rt.run_n_steps(b);
+                    let events = verif_sched::take();
+                    let (rec, _, _) = call_record(&mut rt, call, &status, events);
+                    t.after_calls.push(rec);
+                }
                 break;
             }
             if call.service {
@@ -216,7 +246,8 @@ pub fn run_traced_rt(mk: &MkRuntime, sched: &Schedule, max_steps: u64, host: Hos
                     }
                 }
             }
-            if t.total_steps > max_steps || i > 4_000_000 {
+            if t.total_steps > max_steps || i >= max_calls {
+                t.call_bound_hit = i >= max_calls;
                 break;
             }
         }
@@ -225,6 +256,9 @@ pub fn run_traced_rt(mk: &MkRuntime, sched: &Schedule, max_steps: u64, host: Hos
     if let Err(p) = r {
         t.outcome = Outcome::Crash(panic_msg(p));
         std::mem::forget(rt);
+    } else if let Err(p) = catch_unwind(AssertUnwindSafe(move || drop(rt))) {
+        // tearing the runtime down must not fail either (heap accounting, double free …)
+        t.outcome = Outcome::Crash(format!("while dropping the runtime: {}", panic_msg(p)));
     }
     t
 }
@@ -242,8 +276,12 @@ pub fn trace_case(t: &Traced) -> (String, String) {
     let mut retrying: HashMap<usize, usize> = HashMap::new();
     let mut answer: Vec<String> = vec![];
     let mut calls: Vec<String> = vec![];
-    for c in &t.calls {
-        calls.push(format!("{}{}", c.call.budget, if c.call.service { "" } else { "!" }));
+    let n_main_calls = t.calls.len();
+    let finished = matches!(t.outcome, Outcome::Done | Outcome::Error(_));
+    for (ci, c) in t.calls.iter().chain(t.after_calls.iter()).enumerate() {
+        // nothing is serviced after the call that reported completion or failure
+        let serviced = c.call.service && !(finished && ci + 1 == n_main_calls);
+        calls.push(format!("{}{}", c.call.budget, if serviced { "" } else { "!" }));
         let mut evs: Vec<String> = vec![];
         // a Spawn step is followed by the Enqueue of the thread it created
         let mut pending_spawn: Option<(usize, usize)> = None; // (script index, position of the item)
@@ -331,4 +369,276 @@ pub fn trace_case(t: &Traced) -> (String, String) {
 /// number of executed instructions the hook saw in a call
 pub fn executed(c: &CallRecord) -> u32 {
     c.events.iter().filter(|e| matches!(e, Event::Step { .. })).count() as u32
+}
+
+// ------------------------------------------------------------------ running a program in a child process
+// A defect of the VM can abort the whole process (stack overflow, double free, a panic while a panic is
+// unwinding).  C08/C09 therefore run every program in a child: the harness binary re-executes itself with
+// `--child-run`, the job comes in on stdin, one line per schedule goes out on stdout.  An abnormal end of
+// the child is attributed to the program it was running.
+
+#[derive(Clone, Debug)]
+pub struct ChildRun {
+    pub desc: String,
+    pub outcome: String,
+    pub out: String,
+    pub value: String,
+    pub err_text: String,
+    pub steps: u64,
+    /// order/once violation found in the event log (see `fifo_violation`)
+    pub fifo: Option<String>,
+    pub blocked_reads: usize,
+    pub trace: Option<(String, String)>,
+}
+
+fn enc(s: &str) -> String {
+    hex(s.as_bytes())
+}
+fn dec(s: &str) -> String {
+    if s == "-" {
+        return String::new();
+    }
+    let b: Vec<u8> = (0..s.len() / 2).map(|i| u8::from_str_radix(&s[2 * i..2 * i + 2], 16).unwrap_or(b'?')).collect();
+    String::from_utf8_lossy(&b).to_string()
+}
+
+fn sched_to_line(s: &Schedule) -> String {
+    let f = |c: &Call| format!("{}{}", c.budget, if c.service { "" } else { "!" });
+    format!(
+        "{}|{}",
+        s.prefix.iter().map(f).collect::<Vec<_>>().join(","),
+        s.cycle.iter().map(f).collect::<Vec<_>>().join(",")
+    )
+}
+fn sched_from_line(l: &str) -> Schedule {
+    let p = |x: &str| -> Vec<Call> {
+        x.split(',')
+            .filter(|w| !w.is_empty())
+            .map(|w| Call { budget: w.trim_end_matches('!').parse().unwrap_or(1), service: !w.ends_with('!') })
+            .collect()
+    };
+    let (a, b) = l.split_once('|').unwrap_or(("", l));
+    Schedule { prefix: p(a), cycle: p(b) }
+}
+
+/// per channel: the popped sequence must be a prefix of the pushed sequence (raw (bits, tag) payloads)
+pub fn fifo_violation(t: &Traced) -> Option<String> {
+    let mut pushed: HashMap<usize, Vec<(u64, u8)>> = HashMap::new();
+    let mut popped: HashMap<usize, usize> = HashMap::new();
+    for c in &t.calls {
+        for e in &c.events {
+            if let Event::Step { kind, .. } = e {
+                match kind {
+                    StepKind::Write(ch, bits, tag) => pushed.entry(*ch).or_default().push((*bits, *tag)),
+                    StepKind::ReadOk(ch, bits, tag) => {
+                        let n = popped.entry(*ch).or_insert(0);
+                        *n += 1;
+                        let w = pushed.get(ch).map(|v| v.as_slice()).unwrap_or(&[]);
+                        if *n > w.len() || w[*n - 1] != (*bits, *tag) {
+                            return Some(format!("read #{n} of a channel popped {:?} but write #{n} was {:?}", (*bits, *tag), w.get(*n - 1)));
+                        }
+                    }
+                    _ => {}
+                }
+            }
+        }
+    }
+    None
+}
+
+pub fn blocked_reads(t: &Traced) -> usize {
+    t.calls.iter().flat_map(|c| c.events.iter()).filter(|e| matches!(e, Event::Step { kind: StepKind::ReadBlocked(_), .. })).count()
+}
+
+fn read_line(input: &[u8], pos: &mut usize) -> String {
+    let start = *pos;
+    while *pos < input.len() && input[*pos] != b'\n' {
+        *pos += 1;
+    }
+    let l = String::from_utf8_lossy(&input[start..*pos]).to_string();
+    *pos += 1;
+    l
+}
+
+/// call first thing in `main`: serves `--child-run` and never returns in that case.
+/// stdin: line 1 = max_steps, line 2 = number of jobs; per job: a header line
+/// `<trace index or -1> <number of schedules> <byte length of the source>`, the schedule lines, the source.
+pub fn child_run_if_requested() {
+    let args: Vec<String> = std::env::args().collect();
+    if args.get(1).map(|s| s.as_str()) != Some("--child-run") {
+        return;
+    }
+    std::panic::set_hook(Box::new(|_| {}));
+    let mut input = Vec::new();
+    use std::io::Read as _;
+    std::io::stdin().read_to_end(&mut input).unwrap();
+    let mut pos = 0usize;
+    let max_steps: u64 = read_line(&input, &mut pos).parse().unwrap_or(1_000_000);
+    let njobs: usize = read_line(&input, &mut pos).parse().unwrap_or(0);
+    let out = std::io::stdout();
+    use std::io::Write as _;
+    // compiling Abra needs a deep stack
+    let body = move || {
+        let mut pos = pos;
+        for job in 0..njobs {
+            let header = read_line(&input, &mut pos);
+            let h: Vec<i64> = header.split(' ').map(|x| x.parse().unwrap_or(-1)).collect();
+            let (trace_idx, n, len) = (h[0], h[1] as usize, h[2] as usize);
+            let scheds: Vec<Schedule> = (0..n).map(|_| sched_from_line(&read_line(&input, &mut pos))).collect();
+            let src = String::from_utf8_lossy(&input[pos..pos + len]).to_string();
+            pos += len;
+            writeln!(out.lock(), "JOB\t{job}").unwrap();
+            match compile_program(&src) {
+                Err(o) => {
+                    let text = match &o {
+                        Outcome::Rejected(e) => e.clone(),
+                        Outcome::Crash(e) => e.clone(),
+                        _ => String::new(),
+                    };
+                    writeln!(out.lock(), "COMPILE\t{}\t{}", o.tag(), enc(&text)).unwrap();
+                }
+                Ok(mk) => {
+                    for (k, s) in scheds.iter().enumerate() {
+                        // announce the run first: if the process dies, the parent knows in which run
+                        writeln!(out.lock(), "BEGIN\t{}", enc(&s.describe())).unwrap();
+                        out.lock().flush().unwrap();
+                        let mut h = prelude_host(&PRELUDE_HOSTS);
+                        let t = run_traced_rt(&mk, s, max_steps, &mut h);
+                        let tr = if k as i64 == trace_idx && t.total_steps <= 2500 && !matches!(t.outcome, Outcome::Crash(_)) {
+                            let (a, b) = trace_case(&t);
+                            format!("{}\t{}", enc(&a), enc(&b))
+                        } else {
+                            "-\t-".to_string()
+                        };
+                        let crash = if let Outcome::Crash(m) = &t.outcome { m.clone() } else { t.err_text.clone() };
+                        writeln!(
+                            out.lock(),
+                            "RUN\t{}\t{}\t{}\t{}\t{}\t{}\t{}\t{}\t{}",
+                            enc(&s.describe()),
+                            t.outcome.tag(),
+                            enc(&t.out),
+                            enc(&t.value),
+                            enc(&crash),
+                            t.total_steps,
+                            enc(&fifo_violation(&t).unwrap_or_default()),
+                            blocked_reads(&t),
+                            tr
+                        )
+                        .unwrap();
+                        out.lock().flush().unwrap();
+                    }
+                }
+            }
+            writeln!(out.lock(), "ENDJOB\t{job}").unwrap();
+            out.lock().flush().unwrap();
+        }
+    };
+    let h = std::thread::Builder::new().stack_size(256 << 20).spawn(body).unwrap();
+    let ok = h.join().is_ok();
+    std::process::exit(if ok { 0 } else { 101 });
+}
+
+pub enum ChildResult {
+    /// the compiler rejected the program / panicked: (tag, text)
+    Compile(String, String),
+    Runs(Vec<ChildRun>),
+    /// the child process ended abnormally: what happened, the runs completed before, the run in progress
+    Died(String, Vec<ChildRun>, Option<String>),
+}
+
+pub struct ChildJob<'a> {
+    pub src: &'a str,
+    pub scheds: &'a [Schedule],
+    pub trace_idx: Option<usize>,
+}
+
+/// run `src` under `scheds` in a child process of its own
+pub fn run_in_child(src: &str, scheds: &[Schedule], max_steps: u64, trace_idx: Option<usize>) -> ChildResult {
+    run_batch_in_child(&[ChildJob { src, scheds, trace_idx }], max_steps).into_iter().next().unwrap()
+}
+
+/// Run a batch of programs in one child process.  If the child dies, the program it was running is
+/// reported `Died` and the programs after it are run again, each in a child of its own.
+pub fn run_batch_in_child(jobs: &[ChildJob], max_steps: u64) -> Vec<ChildResult> {
+    use std::io::Write as _;
+    use std::process::{Command, Stdio};
+    let exe = std::env::current_exe().unwrap();
+    let mut input: Vec<u8> = format!("{max_steps}\n{}\n", jobs.len()).into_bytes();
+    for j in jobs {
+        input.extend_from_slice(
+            format!("{} {} {}\n", j.trace_idx.map(|x| x as i64).unwrap_or(-1), j.scheds.len(), j.src.len()).as_bytes(),
+        );
+        for s in j.scheds {
+            input.extend_from_slice(sched_to_line(s).as_bytes());
+            input.push(b'\n');
+        }
+        input.extend_from_slice(j.src.as_bytes());
+    }
+    let died_all = |what: String| -> Vec<ChildResult> { jobs.iter().map(|_| ChildResult::Died(what.clone(), vec![], None)).collect() };
+    let mut child = match Command::new(exe).arg("--child-run").stdin(Stdio::piped()).stdout(Stdio::piped()).stderr(Stdio::piped()).spawn() {
+        Ok(c) => c,
+        Err(e) => return died_all(format!("cannot start child: {e}")),
+    };
+    {
+        let mut stdin = child.stdin.take().unwrap();
+        let _ = stdin.write_all(&input);
+    }
+    let o = match child.wait_with_output() {
+        Ok(o) => o,
+        Err(e) => return died_all(format!("child wait failed: {e}")),
+    };
+    let text = String::from_utf8_lossy(&o.stdout);
+    let mut results: Vec<ChildResult> = vec![];
+    let mut runs: Vec<ChildRun> = vec![];
+    let mut compile: Option<(String, String)> = None;
+    let mut in_progress: Option<String> = None;
+    let mut open_job = false;
+    for l in text.lines() {
+        let f: Vec<&str> = l.split('\t').collect();
+        match f[0] {
+            "JOB" => {
+                open_job = true;
+                runs = vec![];
+                compile = None;
+                in_progress = None;
+            }
+            "COMPILE" if f.len() >= 3 => compile = Some((f[1].to_string(), dec(f[2]))),
+            "BEGIN" if f.len() >= 2 => in_progress = Some(dec(f[1])),
+            "RUN" if f.len() >= 11 => {
+                in_progress = None;
+                let fifo = dec(f[7]);
+                runs.push(ChildRun {
+                    desc: dec(f[1]),
+                    outcome: f[2].to_string(),
+                    out: dec(f[3]),
+                    value: dec(f[4]),
+                    err_text: dec(f[5]),
+                    steps: f[6].parse().unwrap_or(0),
+                    fifo: if fifo.is_empty() { None } else { Some(fifo) },
+                    blocked_reads: f[8].parse().unwrap_or(0),
+                    trace: if f[9] == "-" && f[10] == "-" { None } else { Some((dec(f[9]), dec(f[10]))) },
+                });
+            }
+            "ENDJOB" => {
+                open_job = false;
+                results.push(match compile.take() {
+                    Some((a, b)) => ChildResult::Compile(a, b),
+                    None => ChildResult::Runs(std::mem::take(&mut runs)),
+                });
+            }
+            _ => {}
+        }
+    }
+    if results.len() < jobs.len() {
+        // the child died inside job number results.len() (or before announcing it)
+        let err = String::from_utf8_lossy(&o.stderr);
+        let tail: String = err.lines().rev().take(3).collect::<Vec<_>>().into_iter().rev().collect::<Vec<_>>().join(" | ");
+        let _ = open_job;
+        results.push(ChildResult::Died(format!("{:?} {}", o.status, tail), std::mem::take(&mut runs), in_progress));
+        let next = results.len();
+        for j in &jobs[next..] {
+            results.extend(run_batch_in_child(std::slice::from_ref(j), max_steps));
+        }
+    }
+    results
 }
